@@ -80,10 +80,28 @@ def one_tree(ctx, out, spec, objs, via_json, style="inplace"):
     if style != "renamed-id" and md.get("ok") != dl:
         out.disagree(case, f"model to_dict_list differs: {json.dumps(md.get('ok'))[:300]} vs {json.dumps(dl)[:300]}")
     obj = json.loads(json.dumps(dl)) if via_json else dl
+    parents = []
+
+    def watch(fn):
+        def mapper(parent, item):
+            parents.append(parent)     # the node below which this item is about to be created
+            return fn(parent, item)
+
+        return mapper
+
     try:
-        t2 = Tree.from_dict(obj, **({"mapper": (m.deser if style == "inplace" else deser_item)} if use_mapper else {}))
+        t2 = Tree.from_dict(obj, **({"mapper": watch(m.deser if style == "inplace" else deser_item)} if use_mapper else {}))
         after = S.tree_shape(t2, pool)
         groups = S.clone_groups(t2)
+        if use_mapper:
+            made = list(t2)
+            if len(parents) != len(made):
+                out.fail(case, f"from_dict() called the mapper {len(parents)} times for {len(made)} nodes")
+            else:
+                for k_, (p_, n_) in enumerate(zip(parents, made)):
+                    if p_ is not (n_.parent if n_.parent is not None else t2.system_root):
+                        out.fail(case, f"from_dict(): the mapper call for node #{k_} ({n_!r}) got parent {p_!r}, the node was created below {n_.parent!r}")
+                        break
     except Exception as e:  # noqa
         after = "err:" + adapter.err_class(e) + ":" + type(e).__name__
         groups = None
